@@ -34,6 +34,7 @@ TECHNIQUE += '; deliveries lie inside the reading loop'
 TECHNIQUE += "; end-to-end interpretation of pack() -> unpack() on the JSON level for ids, recipients and payloads over the encoding's own characters (C19.R12)"
 TECHNIQUE += '; delivered ids are never forgotten (R7 who-may-remove clause)'
 LEVEL_TEXT += ' Added clause: offset and seen-set move one record at a time.'
+LEVEL_TEXT += " Added clauses (rounds 9-11): unpack(pack(p)) == p end to end for ids, recipients and payloads over the encoding's own and control characters; delivered ids are never forgotten."
 LEVEL_NOTE = 'Trusted: str.replace and re.sub scan left to right; a text-mode readline() returns a line without trailing newline only at end of file.'
 EXPLANATION = ('Static analysis of /repo sources, TatSu not imported. Stage sequences are extracted from the def-use chain of the '
                'value threaded through pack/unpack; regex literals of the codecs are compiled to NFAs by the checker; receive() is '
